@@ -31,7 +31,7 @@ QUICK_MC = {"C01": ["MC_Log_quick.cfg", "MC_Log_inline_quick.cfg"], "C02": ["MC_
             "C03": ["MC_Log_read_quick.cfg", "MC_Log_crashread_quick.cfg"], "C04": ["MC_Log_read_quick.cfg", "MC_Log_crashread_quick.cfg", "MC_Log_idxloss_quick.cfg"],
             "C05": ["MC_Log_quick.cfg", "MC_Log_inline_quick.cfg"], "C06": ["MC_Log_quick.cfg", "MC_Log_crashread_quick.cfg", "MC_Log_idxloss_quick.cfg"]}
 ALL_QUICK = ["MC_Log_quick.cfg", "MC_Log_inline_quick.cfg", "MC_Log_read_quick.cfg", "MC_Log_crashread_quick.cfg", "MC_Log_shapes_quick.cfg", "MC_Log_idxloss_quick.cfg"]
-THOROUGH_MC = ALL_QUICK + ["MC_Log_thorough.cfg", "MC_Log_3p_thorough.cfg", "MC_Log_read_thorough.cfg"]
+THOROUGH_MC = ALL_QUICK + ["MC_Log_thorough.cfg", "MC_Log_3p_thorough.cfg", "MC_Log_k3_thorough.cfg", "MC_Log_read_thorough.cfg", "MC_Log_readfault_thorough.cfg"]
 SIMS = {"Sim_Log_a.cfg": (0, 1), "Sim_Log_b.cfg": (2, 2), "Sim_Log_c.cfg": (3, 3), "Sim_Log_d.cfg": (0, 2), "Sim_Log_e.cfg": (0, 3)}  # d: 8 producers, many batches per segment
 DEV_PARAMS = {"NoRange": (0, 2), "TolerateLostIdx": (0, 2)}
 
